@@ -528,6 +528,7 @@ def run_schedules(ctx, lay, scheds, label, thread=False, per_daemon=12, variant=
     logs = []
     clean = True
     b = 0
+    nfail = 0
     while b < len(scheds):
         batch = scheds[b:b + per_daemon]
         run = Run(lay, thread, variant)
@@ -583,6 +584,10 @@ def run_schedules(ctx, lay, scheds, label, thread=False, per_daemon=12, variant=
         if core.report_sanitizers(ctx, cerr, replay=rp, in_scope=True):
             clean = False
         b += ndone
+        if failed:
+            nfail += 1
+            if nfail >= 4:
+                break
     ok = validate(ctx, logs, label, thread)
     if ok and clean:
         ctx.validated(len(scheds))
@@ -618,7 +623,8 @@ def run(ctx):
 
     # ---- model checking
     for cfg, to in ([("MC_ProxyQueue_q", 600), ("MC_ProxyQueue_thr", 600)] if quick else
-                    [("MC_ProxyQueue_q", 600), ("MC_ProxyQueue_thr", 600), ("MC_ProxyQueue_a", 1800), ("MC_ProxyQueue_t", 3000)]):
+                    [("MC_ProxyQueue_q", 600), ("MC_ProxyQueue_thr", 600), ("MC_ProxyQueue_t", 900), ("MC_ProxyQueue_tthr", 900),
+                     ("MC_ProxyQueue_a", 1500), ("MC_ProxyQueue_lvl", 1500), ("MC_ProxyQueue_t3", 1800)]):
         r = tlc.run("ProxyQueue", cfg, timeout=to, workers=8, heap="8g", coverage=not quick)
         ctx.add_mc(r, cfg)
         if r.violation:
@@ -632,7 +638,7 @@ def run(ctx):
     # ---- schedules
     rnd = random.Random(ctx.seed * 104729 + 18)
     scheds = []
-    n = 14 if quick else 400
+    n = 14 if quick else 150
     g = tlc.run("Gen_ProxyQueue", "Gen_ProxyQueue", timeout=900, workers=4, simulate=n, depth=92, seed=ctx.seed, collect_tr=True,
                 heap="2g", max_tr=4 * n)
     ctx.add_mc(g, "GEN Gen_ProxyQueue")
@@ -644,7 +650,7 @@ def run(ctx):
             continue
         seen.add(h)
         scheds.append(("walk#%d" % len(scheds), st))
-    for i in range(8 if quick else 300):
+    for i in range(8 if quick else 100):
         scheds.append(("seeded#%d" % i, seeded_schedule(rnd, rnd.choice([25, 40, 60]))))
     scheds = [(nm, st, ctx.seed * 7919 + i) for i, (nm, st) in enumerate(scheds)]
     # a stalled client, the others keep up, frames arrive in bursts: in the thread variant the acquisition thread
